@@ -202,7 +202,13 @@ def apply_op(i, op):
                     break
         return rxy
     if op == 'pvr':
-        i.pvr(normalization_radius=0.45 * min(i.data.shape) * float(i.dx))
+        # normalisation radius covering every sample (pvr of a map with no sample inside the unit disc, or with no valid
+        # sample at all, has nothing to evaluate and raises: not part of the property)
+        rmax = float(copy.deepcopy(i).r.max())
+        if np.isfinite(i.data).any() and rmax > 0:
+            i.pvr(normalization_radius=1.01 * rmax)
+        else:
+            i.r, i.t
         return [('read_r',) + z, ('read_t',) + z]
     if op == 'slices':
         sl = i.slices()
@@ -407,12 +413,14 @@ def real_summary(i):
     def ax(a, which):
         if a is None:
             return None
+        if getattr(a, 'ndim', 0) != 2:
+            return (-1, -1, float('nan'), 0.0)
         sp = 0.0
         if which == 'x' and a.shape[1] > 1:
             sp = float(a[0, 1] - a[0, 0])
         if which == 'y' and a.shape[0] > 1:
             sp = float(a[1, 0] - a[0, 0])
-        return (a.shape[0], a.shape[1], float(a[0, 0]), sp)
+        return (a.shape[0], a.shape[1], float(a[0, 0]) if a.size else float('nan'), sp)
     return {'shape': tuple(i.data.shape), 'dx': float(i.dx), 'latcaled': bool(i._latcaled),
             'x': ax(i._x, 'x'), 'y': ax(i._y, 'y'), 'r': i._r is not None, 't': i._t is not None}
 
